@@ -27,7 +27,7 @@ func init() {
 			"R-C02-4 non-numeric defaults (on_link/autonomous/source_lla true when omitted, empty prefix/route/servers = wildcard, monitor interfaces carry only name/monitor/verbose); R-C02-5 totality of the module's own code (no panic, unchecked assertion or unguarded nil dereference reachable from Parse)",
 		Assumptions: []string{
 			"Go type checker and go/ssa construction are correct",
-			"go-toml's strict decoder rejects unknown keys; go-toml, net/netip and time parsers do not panic",
+			"go-toml's strict decoder rejects every key that no struct field consumes (go-toml v1.9.5 also consumes the title-case and all-upper-case spellings of a tag, e.g. NAME for name: such keys are aliases to it, not unknown keys — observed by a sub-agent, a property of the library); go-toml, net/netip and time parsers do not panic",
 			"float64 arithmetic (0.33·max, 0.75·max) is treated as exact rational arithmetic on the float64 constants",
 		},
 		NotCovered: []string{"that the documented set is what the RFC wants", "panics inside third-party parsers / arbitrary byte strings through go-toml", "validity of interface names and of the debug address beyond net.ResolveTCPAddr"},
